@@ -700,7 +700,9 @@ var blockStarts = []func(*lineParser){
 		}
 		for i, conds := range htmlBlockConditions {
 			if conds.startCondition(line) {
-				if !conds.canInterruptParagraph && p.ContainerKind() == ParagraphKind {
+				// (The deepest open block is a paragraph
+				// if this line may be a lazy continuation line.)
+				if !conds.canInterruptParagraph && (p.ContainerKind() == ParagraphKind || p.TipKind() == ParagraphKind) {
 					return
 				}
 				p.OpenHTMLBlock(i)
